@@ -1246,7 +1246,7 @@ def nb_dot(a: Union[np.ndarray, pd.DataFrame, pl.DataFrame], b: ArrayType1D):
     else:
         arr_list = NumbaList([np.asarray(a[col]) for col in a.columns])
 
-    kinds = [a.dtype.kind for a in arr_list]
+    kinds = [a.dtype.kind for a in arr_list] + [np.asarray(b).dtype.kind]
     return_type = np.float64 if "f" in kinds else np.int64
 
     if not len(a):
